@@ -6,6 +6,7 @@ import re
 from hypothesis import strategies as st
 
 from vlib import gen_values as gv
+from vlib import greybox
 from vlib.compare import bisimilar
 from vlib.runner import Arm, Eval, Failure
 from vlib.util import exc_key, exc_msg, strings_in, objects_in, have_c, has_foldable_more_indented_line
@@ -325,6 +326,61 @@ def eval_temporaries(case):
                 sample={"documents": len(bps), "options": repr(opts)})
 
 
+# values obtained by safe-loading coverage-guided texts: what safe_load returns is a value of the safe universe, except for the
+# 2-tuples of !!omap / !!pairs (not part of C02's universe: the safe dumper writes a tuple as a sequence) and NaN keys
+LOADED_OPTS = [{}, {"default_flow_style": True}, {"default_flow_style": False}, {"default_style": '"'}, {"default_style": "'"}, {"default_style": "|"},
+               {"default_style": ">", "width": 12}, {"canonical": True}, {"allow_unicode": True, "width": 8}, {"indent": 5, "sort_keys": False},
+               {"line_break": "\r\n", "explicit_start": True, "explicit_end": True}, {"encoding": "utf-16-le", "version": (1, 1)},
+               {"width": 2, "indent": 9}, {"tags": {"!!": "tag:yaml.org,2002:"}, "sort_keys": False}]
+
+
+def _loaded_objects(text):
+    import yaml
+    try:
+        objs = list(yaml.load_all(text, Loader=yaml.SafeLoader))
+    except (yaml.YAMLError, RecursionError):
+        return None
+    return objs[:3]
+
+
+def _has_nan_key(obj):
+    for x in objects_in(obj):
+        if isinstance(x, tuple):
+            return True
+        if isinstance(x, (dict, set, frozenset)):
+            for k in x:
+                if isinstance(k, float) and k != k:
+                    return True
+    return False
+
+
+def eval_loaded(case):
+    text, oi = case
+    opts = LOADED_OPTS[oi % len(LOADED_OPTS)]
+    objs = _loaded_objects(text)
+    if not objs:
+        return Eval([], ["loaded", "loaded:text-rejected-or-empty"], nontrivial=False, evals=1)
+    failures, evals = [], 1
+    cl = {"loaded"}
+    for obj in objs:
+        if _has_nan_key(obj):
+            cl.add("loaded:nan-key-or-omap-tuple-skipped")      # outside the universe of the property, see ASSUMPTIONS
+            continue
+        cl.add("loaded:root:%s" % type(obj).__name__)
+        cl |= {"loaded:" + c for c in string_classes(strings_in(obj), opts)}
+        f, e = roundtrip(obj, opts, False, cl)
+        failures.extend(f)
+        evals += e
+    return Eval(failures, sorted(cl), nontrivial=len(cl) > 2, ident=repr(case), evals=evals,
+                sample={"text": text[:300], "options": repr(opts), "value": repr(objs[0])[:300]})
+
+
+def loaded_campaign(shard, nshards, tier):
+    from vlib.runner import h64
+    return greybox.campaign(shard, nshards, tier, PROPERTY, "loaded", quick=12000, thorough=700000,
+                            wrap=lambda t: (t, h64(t) % len(LOADED_OPTS)), valid_only=True)
+
+
 def arms(tier):
     return [
         Arm("value", eval_value, value_cases, quick=12000, thorough=600000),
@@ -332,6 +388,8 @@ def arms(tier):
         Arm("tz", eval_value, tz_cases, quick=400, thorough=20000),
         Arm("shared-scalar-key", eval_value, shared_scalar_cases, quick=1500, thorough=50000),
         Arm("temporaries", eval_temporaries, stream_of_temporaries_cases, quick=2500, thorough=80000),
+        # coverage-guided texts -> safe_load_all -> values -> round trip (vlib/greybox.py)
+        Arm("loaded", eval_loaded, enum=loaded_campaign),
     ]
 
 
@@ -343,6 +401,15 @@ def known_class(arm, case, key):
             return "datetime-subminute-utcoffset"
         if key.startswith(("temporaries:document-differs:c>", "temporaries:document-count:c>", "load-rejects-dump_all-output:c>")) and any(
                 c_folded_more_indented(o, opts) for o in objs):
+            return "libyaml-folds-inside-more-indented-line"
+        return None
+    if arm == "loaded":
+        text, oi = case
+        opts = LOADED_OPTS[oi % len(LOADED_OPTS)]
+        objs = [o for o in (_loaded_objects(text) or []) if not _has_nan_key(o)]
+        if key.startswith("load-rejects-dump-output") and any(has_subminute_tz(o) for o in objs):
+            return "datetime-subminute-utcoffset"
+        if (key.startswith("mismatch:c>") or key.startswith("load-rejects-dump-output:c>")) and any(c_folded_more_indented(o, opts) for o in objs):
             return "libyaml-folds-inside-more-indented-line"
         return None
     if arm in ("value", "tz", "shared-scalar-key"):
